@@ -39,7 +39,6 @@ use dmntk_feel::values::{Value, Values, VALUE_FALSE, VALUE_TRUE};
 use dmntk_feel::{value_null, FeelDate, FeelDateTime, FeelDaysAndTimeDuration, FeelNumber, FeelTime, FeelYearsAndMonthsDuration, Name, Scope, ToFeelString};
 use regex::Regex;
 use std::borrow::Borrow;
-use std::cmp::Ordering;
 use std::convert::TryFrom;
 
 /// Builds null value with invalid argument type message.
@@ -886,26 +885,41 @@ pub fn reverse(list: &Value) -> Value {
   }
 }
 
+/// Stable merge sort driven by the function `precedes`. The ordering function comes from the user and
+/// need not be an order; the sort of the standard library panics when it notices that, this one
+/// returns some permutation of the items (and the same result for every function that is an order).
+fn merge_sort(mut items: Vec<Value>, precedes: &mut dyn FnMut(&Value, &Value) -> bool) -> Vec<Value> {
+  if items.len() < 2 {
+    return items;
+  }
+  let right = items.split_off(items.len() / 2);
+  let left = merge_sort(items, precedes);
+  let right = merge_sort(right, precedes);
+  let mut merged = Vec::with_capacity(left.len() + right.len());
+  let (mut left, mut right) = (left.into_iter().peekable(), right.into_iter().peekable());
+  while let (Some(l), Some(r)) = (left.peek(), right.peek()) {
+    if precedes(r, l) {
+      merged.extend(right.next());
+    } else {
+      merged.extend(left.next());
+    }
+  }
+  merged.extend(left);
+  merged.extend(right);
+  merged
+}
+
 ///
 pub fn sort(list: &Value, ordering_function: &Value) -> Value {
   if let Value::List(items) = list.clone() {
     if let Value::FunctionDefinition(parameters, body, _) = ordering_function {
       if parameters.len() == 2 {
-        let mut elements = items.as_vec().clone();
-        elements.sort_by(|x, y| {
+        let elements = merge_sort(items.as_vec().clone(), &mut |x, y| {
           let mut ctx = FeelContext::default();
           ctx.set_entry(&parameters[0].0, x.clone());
           ctx.set_entry(&parameters[1].0, y.clone());
           let scope: Scope = ctx.into();
-          if let Value::Boolean(result) = body.evaluate(&scope) {
-            if result {
-              Ordering::Less
-            } else {
-              Ordering::Equal
-            }
-          } else {
-            Ordering::Equal
-          }
+          matches!(body.evaluate(&scope), Value::Boolean(true))
         });
         Value::List(Values::new(elements))
       } else {
